@@ -47,7 +47,8 @@ SPEC = {
         "scoped_declarations_unobserved", "no_other_nondeterminism",
         # worked example of a commutative fold: Context::end_enum transcribed (Model/EnumRange.lean)
         "end_enum_shape_as_modelled", "end_enum_type_or_error_order_independent", "end_enum_panics_order_independent",
-        "gather_panic_message_order_dependent", "end_enum_order_independent", "blame_first_order_dependent",
+        "gather_panic_message_order_dependent", "end_enum_order_independent", "end_enum_promotion_total",
+        "blame_first_order_dependent",
         # history independence: no process-wide state (tie: Gen.GlobalState), and what that buys (Model/History.lean)
         "history_independent_of_stateless", "runSeq_eq_map_fresh", "history_independent_of_no_state",
         "real_reserved_set_history_independent", "once_lock_history_dependent",
@@ -71,7 +72,12 @@ SPEC = {
     "shrink": shrink,
     "rule": "accepted programs: generated shader files (up to 10 resources, 6 helpers with call graphs, 5 static globals threaded on "
             "Metal, 3 pipelines) x 4 targets, name-clash programs, programs whose functions share their name with a struct / enum / "
-            "cbuffer of the same scope (accepted since fix 31dddea) x 4 targets, buffer addresses in 2-4 bind groups with tied inline "
+            "cbuffer of the same scope (accepted since fix 31dddea) x 4 targets, programs through the code of fix batch 3 (fix3:<seed>: "
+            "enum values that share their name with a constant buffer block declared before or after the enum - the order that "
+            "reached assert_eq!(symbols.len(), 1) in end_enum until fe5dd8d - in the global scope and 0-2 namespaces, 2-7 values "
+            "per enum, int and uint backed enums next to int / uint / bool operands and literals, float remainder assignments, "
+            "casts to and from one component vectors, struct casts, 17 digit float literals, four component swizzles) x 4 "
+            "targets, buffer addresses in 2-4 bind groups with tied inline "
             "descriptor slots x {vk, vkba}, plus the repository's own inputs under tests/ x {dx, msl}, each "
             "compiled 5 times in one process and once in each of 3 fresh processes; programs with CALL CYCLES (cycle:<seed>, 24 quick / "
             "300 thorough + 6 corpus entries: 1-6 cycles of 1-4 mutually recursive functions through forward declarations, self "
@@ -79,9 +85,10 @@ SPEC = {
             "and through helper chains of depth 1-3, sometimes a helper chain of depth 9-24, static globals initialised by a call "
             "of a helper or of a cycle member, 1-2 entry points) x 4 targets (Metal shows the closed usage sets as implicit "
             "parameter lists and is_used; the HLSL targets are the control), each compiled 8 times in one process and once in each "
-            "of 3 fresh processes, a failure quotes the first differing emitted line and the program; rejected programs: 113 generated families "
+            "of 3 fresh processes, a failure quotes the first differing emitted line and the program; rejected programs: 116 generated families "
             "with >= 3 interchangeable offenders each (lexer, preprocessor, parser, 99 of 109 TyperError variants incl. enum "
-            "range / conflicts, overload ambiguity with candidate lists, redefinitions, and every rejection introduced by fix batch 2; "
+            "range / conflicts, overload ambiguity with candidate lists, redefinitions, and every rejection introduced by fix batches 2 and 3 (enum value named like a namespace, swizzles "
+            "of more than four components, Metal remainder assignments whose target or right operand writes); "
             "layout check; pipeline errors; exporter "
             "errors on every target) and the 504 rejected inputs of the repository's typer tests, each compiled 8 times in one "
             "process and once in each of 3 fresh processes; all digests (sources, stages, metadata, state, fully rendered "
@@ -98,8 +105,13 @@ SPEC = {
     "level_text": "Proof of the logic, test of the runtime: every shape of hash-iteration site (collect+sort with an antisymmetric "
                   "order or an injective key, insert under distinct keys, commutative fold, check-only loop) is proved invariant "
                   "under every permutation of the iteration order; Context::end_enum - five loops over a Vec drained from a HashMap "
-                  "- is transcribed (Model/EnumRange.lean, compared with the regenerated Gen.EnumRange) and proved order "
-                  "independent as a whole, including the location and payload of its range error; the translator's inventory of "
+                  "- is transcribed (Model/EnumRange.lean, compared with the regenerated Gen.EnumRange: range loop, selection, "
+                  "conversion arms, and the text of the promotion and reinsertion loops) and proved order "
+                  "independent as a whole, including the location and payload of its range error, for EVERY parent scope "
+                  "(since fix fe5dd8d removed assert_eq!(symbols.len(), 1) the vector of a name may also hold a constant "
+                  "buffer block; the promotion and reinsertion iterations commute on every state, so the only hypotheses "
+                  "left are integer-like values and distinct value ids; end_enum_promotion_total: no panic when every name "
+                  "has an entry of any length); the translator's inventory of "
                   "traversals of hash ordered containers (HashMap/HashSet and Vecs filled from them) in the current source is "
                   "proved to contain only reviewed sites WITH THE REVIEWED BODY (fingerprint per loop body), and a body that can "
                   "leave early, builds a diagnostic or keeps a first value is never accepted as a commutative fold. The usage "
@@ -135,7 +147,8 @@ SPEC = {
         "NameMap::build (C15 model)",
         "Model/MemoDfs.lean is a negative example (the seeded variant), fuelled with |table| + 1; nothing positive rests on it",
         "hypotheses of end_enum_order_independent are typer invariants read off the code: enum values are integer-like, value "
-        "ids and names distinct, one symbol per enumerator name in the parent scope",
+        "ids distinct (nothing is assumed about the parent scope or the names any more); end_enum_promotion_total assumes "
+        "that every enumerator name has an entry in the parent scope (register_enum_value pushes one)",
         "Rust's sort/sort_by return a sorted permutation; HashMap = finite map with unspecified iteration order",
         "tools/gens/c07.py GlobalState: regular expressions over the comment- and literal-stripped text of every non-test .rs "
         "file of the 10 compiler crates (`static NAME:` anywhere, state macros, shared-state type names, leak/unsafe, ambient "
